@@ -126,9 +126,13 @@ def check_role(role: str, sl: T.Term, op: str, o: Outcome, ctx: Dict[str, Any]) 
         if lit is not None:
             return (lit == "00" and none), f"day mask is the constant {lit} (non-recurring) on a path where len(days)>0 is {some}"
         e = ("sym", "$e", ("enum", "aioswitcher.schedule:Days"))
-        ok = (len(atoms) == 1 and atoms[0][0] == "fmt" and atoms[0][1] == "02x" and isinstance(atoms[0][2], tuple)
-              and atoms[0][2][:2] == ("app", "int") and atoms[0][2][2][:2] == ("app", "sum")
-              and atoms[0][2][2][2][0] == "map" and atoms[0][2][2][2][1][:3] == ("eattr", e, "bit_rep") and atoms[0][2][2][2][2] == days)
+        summed = None
+        if len(atoms) == 1 and atoms[0][0] == "fmt" and atoms[0][1] == "02x" and isinstance(atoms[0][2], tuple):
+            summed = atoms[0][2]
+            if summed[:2] == ("app", "int") and len(summed) == 3:
+                summed = summed[2]          # int() of an integer sum is the sum
+        ok = (summed is not None and summed[:2] == ("app", "sum") and len(summed) == 3 and summed[2][0] == "map"
+              and summed[2][1][:3] == ("eattr", e, "bit_rep") and summed[2][2] == days)
         return (ok and some), f"day mask is {T.show(sl)[:160]}, expected '{{:02x}}' of the sum of bit_rep over days (only when days given)"
     if role in ("ARG:start", "ARG:end"):
         mine, other = ("start_time", "end_time") if role == "ARG:start" else ("end_time", "start_time")
